@@ -444,11 +444,22 @@ class Exec:
         return z3.BitVec(nm, sort)
 
     # ---------------- forking
+    def _retry_fresh(s):
+        """the incremental solver gave up (time limit, usually under machine load): the same assertions once more in a fresh,
+        non-incremental solver with four times the limit.  Still unknown -> the path is reported as inconclusive by the caller."""
+        s2 = z3.Solver()
+        s2.set('timeout', 4 * getattr(s, 'query_timeout_ms', 20000))
+        s2.add(s.solver.assertions())
+        r = s2.check()
+        s.stats['retries'] = s.stats.get('retries', 0) + 1
+        return r, (s2.model() if r == z3.sat else None)
+
     def _check(s, extra=None):
         t = time.time()
         if extra is not None:
             s.solver.push(); s.solver.add(extra)
         r = s.solver.check()
+        if r == z3.unknown: r, _ = s._retry_fresh()
         if extra is not None: s.solver.pop()
         s.stats['checks'] += 1; s.stats['solver_s'] += time.time() - t
         if r == z3.unknown: raise Unsupported('solver unknown')
@@ -506,13 +517,20 @@ class Exec:
         s.solver.push(); s.solver.add(cond)
         r = s.solver.check()
         m = s.solver.model() if r == z3.sat else None
+        if r == z3.unknown: r, m = s._retry_fresh()
         s.solver.pop()
         s.stats['checks'] += 1; s.stats['solver_s'] += time.time() - t
         if r == z3.unknown: raise Unsupported('solver unknown')
         return m
 
     def model(s):
-        if not s._check(): raise Infeasible()
+        r = s.solver.check(); s.stats['checks'] += 1
+        if r == z3.unknown:
+            r, m = s._retry_fresh()
+            if r == z3.unknown: raise Unsupported('solver unknown')
+            if r != z3.sat: raise Infeasible()
+            return m
+        if r != z3.sat: raise Infeasible()
         return s.solver.model()
 
     def concretize(s, v, prefer=None):
